@@ -94,7 +94,7 @@ def run(prop, tier, seed, replay=None):
             # (b) corpora
             kq = [kind('w', sfx=True), kind('(', tag='$('), kind('-LRB-', tag='$[')]
             kt = kq + [kind(')'), kind(u'Üb"', sfx=True), kind('x' * 8)]
-            m = dict(N=3, MaxCons=2, MaxChain=1) if tier == 'quick' else dict(N=4, MaxCons=3, MaxChain=2)
+            m = dict(N=3, MaxCons=2, MaxChain=1) if tier == 'quick' else dict(N=4, MaxCons=2, MaxChain=1)
             jb = jobs(tier)
             core.gen_module(w, 'MCR', ['MC_Readers'], {
                 'c_TokKinds': core.Raw('{' + ', '.join(core.tla(x) for x in (kq if tier == 'quick' else kt)) + '}'),
